@@ -170,8 +170,27 @@ fn on_fields(fields: &Fields, has_self: bool, encoding: Encoding) -> syn::Result
     let steps = match encoding {
         Encoding::Map => {
             let mut steps = Vec::new();
-            let len = fields.fields().len();
-            steps.push(quote!(#len.cbor_len(__ctx777)));
+            // The map header encodes the number of entries which are actually
+            // written, i.e. all fields which are not nil.
+            let mut counts = Vec::new();
+            for field in fields.fields() {
+                if field.attrs.skip() {
+                    continue
+                }
+                let is_nil = is_nil(&field.typ, field.attrs.codec());
+                let ident  = &field.ident;
+                if has_self {
+                    if field.is_name {
+                        counts.push(quote!(+ if #is_nil(&self.#ident) { 0 } else { 1 }))
+                    } else {
+                        let i = syn::Index::from(field.pos);
+                        counts.push(quote!(+ if #is_nil(&self.#i) { 0 } else { 1 }))
+                    }
+                } else {
+                    counts.push(quote!(+ if #is_nil(&#ident) { 0 } else { 1 }))
+                }
+            }
+            steps.push(quote!((0usize #(#counts)*).cbor_len(__ctx777)));
             for field in fields.fields() {
                 if field.attrs.skip() {
                     continue
@@ -214,10 +233,11 @@ fn on_fields(fields: &Fields, has_self: bool, encoding: Encoding) -> syn::Result
         }
         Encoding::Array => {
             let mut steps = Vec::new();
-            steps.push(quote! {
-                let mut __num777 = 0;
-                let mut __len777 = 0;
-            });
+            // First find the highest index of a field which is not nil. Every
+            // field up to this index is encoded (nil ones as their nil value,
+            // preceded by their tag if any) and gaps between indices as nulls.
+            let mut tests = Vec::new();
+            let mut sizes = Vec::new();
             for field in fields.fields() {
                 if field.attrs.skip() {
                     continue
@@ -229,32 +249,39 @@ fn on_fields(fields: &Fields, has_self: bool, encoding: Encoding) -> syn::Result
                 let is_nil   = is_nil(&field.typ, field.attrs.codec());
                 let ident    = &field.ident;
                 let tag      = on_tag(&field.attrs);
-                if has_self {
-                    if field.is_name {
-                        steps.push(quote! {
-                            if !#is_nil(&self.#ident) {
-                                __len777 += (#n - __num777) + #tag + #cbor_len(&self.#ident, __ctx777);
-                                __num777 = #n + 1
-                            }
-                        })
-                    } else {
-                        let i = syn::Index::from(field.pos);
-                        steps.push(quote! {
-                            if !#is_nil(&self.#i) {
-                                __len777 += (#n - __num777) + #tag + #cbor_len(&self.#i, __ctx777);
-                                __num777 = #n + 1
-                            }
-                        })
-                    }
-                } else {
-                    steps.push(quote! {
-                        if !#is_nil(&#ident) {
-                            __len777 += (#n - __num777) + #tag + #cbor_len(&#ident, __ctx777);
-                            __num777 = #n + 1
+                let access   =
+                    if has_self {
+                        if field.is_name {
+                            quote!(&self.#ident)
+                        } else {
+                            let i = syn::Index::from(field.pos);
+                            quote!(&self.#i)
                         }
-                    })
-                }
+                    } else {
+                        quote!(&#ident)
+                    };
+                tests.push(quote! {
+                    if !#is_nil(#access) {
+                        __max777 = Some(#n)
+                    }
+                });
+                sizes.push(quote! {
+                    if #n <= __m777 {
+                        __len777 += (#n - __num777) + #tag + #cbor_len(#access, __ctx777);
+                        __num777 = #n + 1
+                    }
+                });
             }
+            steps.push(quote! {
+                let mut __max777: core::option::Option<usize> = None;
+                #(#tests)*
+                let mut __num777 = 0;
+                let mut __len777 = 0;
+                if let Some(__m777) = __max777 {
+                    let _ = __m777;
+                    #(#sizes)*
+                }
+            });
             steps.push(quote! { __num777.cbor_len(__ctx777) + __len777 });
             steps
         }
